@@ -398,7 +398,9 @@ def run(ctx):
         if sig in reported:
             continue
         p = byid[pid]
-        r2 = execute(ctx, [dict(p, fields=True)], "re%d" % pid)[0]
+        # together with the program that preceded it (other compiled files are read between decoding and running)
+        before = [byid[k] for k in (pid - 2, pid - 1) if k in byid]
+        r2 = [r for r in execute(ctx, before + [dict(p, fields=True)], "re%d" % pid) if r["id"] == pid][0]
         b2, _ = validate(ctx, [tlc_record(r2)], "re%d" % pid)
         if pid not in b2:
             raise vlib.MachineryError("rejection of program %d (%s) not reproducible" % (pid, sig))
